@@ -607,14 +607,10 @@ def run(repo, rep, tier):
         f = mp.methods[n]
         r5.sites += 1
         r5.functions.add(f.fq)
-        first = None
         from ..inline import Flat
-        from ..cfg import assertion_only
-        for s in Flat(f, keep=('_validate_pull_operations_enabled',)).body:
-            if assertion_only(s):
-                continue
-            first = s
-            break
+        from ..cfg import first_effective
+        first = first_effective(
+            Flat(f, keep=('_validate_pull_operations_enabled',)).body)
         ok = isinstance(first, ast.Expr) and isinstance(first.value, ast.Call)\
             and dotted(first.value.func) == \
             'self._validate_pull_operations_enabled'
